@@ -122,3 +122,21 @@ def handleW19 (toks : List String) : String :=
   | _ => "bad-request"
 
 end Lace.Driver
+
+namespace Lace.Driver
+open Lace.Asm
+
+/-- `Q06 stack src`: what `lace compile` writes for this source text (`fail` if it does not assemble). -/
+def handleQ06 (toks : List String) : String :=
+  match toks with
+  | [so, src] =>
+    match parseHex so, parseText src with
+    | some so, some src =>
+      match (assemble (so != 0) [] src).1 with
+      | .ok img => "M ok " ++ bytesHex (objBytes img.orig img.words)
+      | .diag _ _ => "M fail"
+      | .panic _ => "M panic"
+    | _, _ => "bad-request"
+  | _ => "bad-request"
+
+end Lace.Driver
